@@ -202,7 +202,10 @@ def parse_tlc(r):
     m2 = re.search(r"Error: Action property (\S+) is violated", out)
     if m2:
         r.violation = "action property " + m2.group(1)
-    if re.search(r"Error: Temporal properties were violated", out):
+    m4 = re.search(r"Error: Temporal property (\S+) was violated", out)
+    if m4:
+        r.violation = "temporal property " + m4.group(1)
+    elif re.search(r"Error: Temporal properties were violated", out):
         r.violation = "temporal property"
     if re.search(r"Error: Deadlock reached", out):
         r.violation = "deadlock"
